@@ -57,7 +57,7 @@ func (TrueSet) Equal(i Value) bool {
 }
 
 func (TrueSet) Hash(seed uintptr) uintptr {
-	return seed ^ hash.Any(EmptyTuple, 0)
+	return finishHash(hash.Any(EmptyTuple, 0), seed)
 }
 
 func (t TrueSet) Eval(ctx context.Context, local Scope) (Value, error) {
